@@ -120,7 +120,7 @@ func init() {
 	core.Register(&core.Prop{
 		ID:    "C10",
 		Level: "exploration",
-		Rule: "random trees over a sibling-confusable name universe (a, ab, a-b, 'a b', .c, ...) x include/exclude lists drawn from a grammar (literals, *, ?, **, classes, escapes, trailing /*, /**, /, negations, duplicates, 0-4 each) x map functions {none, keep-all, keep-all+rewrite, mixed keep/exclude/skipdir}; the real fsutil.WalkDir callback sequence is compared with the naive reference (fresh matcher per entry on the full listing + ancestors). " +
+		Rule: "The pattern generator also emits shapes whose '{', '|', '}' or U+FFFD reach the regular expression the matcher compiles (the name pool has a name that is not valid UTF-8). random trees over a sibling-confusable name universe (a, ab, a-b, 'a b', .c, ...) x include/exclude lists drawn from a grammar (literals, *, ?, **, classes, escapes, trailing /*, /**, /, negations, duplicates, 0-4 each) x map functions {none, keep-all, keep-all+rewrite, mixed keep/exclude/skipdir}; the real fsutil.WalkDir callback sequence is compared with the naive reference (fresh matcher per entry on the full listing + ancestors). " +
 			"non-trivial = the patterns select a proper non-empty subset of the tree or a map result other than keep was returned; distinct by (tree, patterns, map mode) fingerprint",
 		Assumptions: []string{"pattern syntax and single-pattern matching are those of moby/patternmatcher (same library on both sides, fresh matcher per decision in the reference)", "map functions are stateless"},
 		Cases: func(tier string) int {
